@@ -523,7 +523,7 @@ def run_impl_resumable(ctx, exe, cases, timeout, max_restarts=6):
         events.append((n, rc, err))
         lines.append("<no output: harness died rc=%d>" % rc)
         start = n + 1
-        if len(events) > max_restarts:
+        if len(events) > max_restarts or over_budget(ctx):
             lines.extend(["<not run: too many harness crashes>"] * (len(cases) - start))
             break
     return lines, events
@@ -726,9 +726,47 @@ def regen_facts(ctx):
                        "SUnknown/XUnknown/BUnknown, which fails the Coq check)")
 
 
+def stage(ctx, name, fn, default=None):
+    """run one stage; an exception is recorded (stage name + first line) and the run continues"""
+    try:
+        return fn()
+    except Exception as ex:                       # noqa: BLE001 - a broken stage must never abort the whole check
+        import traceback
+        ctx.log("stage %s raised:\n%s" % (name, traceback.format_exc()[-1500:]))
+        ctx.broken.append("stage %s failed: %s: %s" % (name, type(ex).__name__, str(ex).split("\n")[0][:200]))
+        return default
+
+
+BUDGET_S = 200          # wall-clock budget of the case phase (quick tier); boosted searches stop when it is used up
+
+
+def over_budget(ctx):
+    import time
+    return (not ctx.thorough()) and time.time() - ctx.t0 > BUDGET_S
+
+
+def build_harness(ctx):
+    """the full harness; on failure retry with a wider repo source list (a changed header may newly need them); then the
+    CORE-ONLY harness (-DC15_CORE_ONLY: no copies / moves / static-type / pre-filled-destination blocks, no L and H case kinds),
+    which needs nothing but write/read/end/getView/reserve/getWrittenView and the stream operators.  -> (exe, core_only)"""
+    wide = REPO_SRC + ["rkcommon/common.cpp", "rkcommon/os/library.cpp"]
+    opt = ctx.pick("-O0", "-O1")
+    for core in (False, True):
+        for srcs, libs in ((REPO_SRC, []), (wide, ["-ldl"])):
+            exe = stage(ctx, "harness build", lambda: ctx.cxx(["harness.cpp"], "harness_core" if core else "harness", repo_sources=srcs,
+                                                             sanitize="asan", opt=opt, timeout=900, libs=libs,
+                                                             flags=["-DC15_CORE_ONLY"] if core else []))
+            if exe:
+                if core:
+                    ctx.broken.append("the full harness does not build against this tree; the core-only harness (public write/read/"
+                                      "reserve/view interface) is used")
+                return exe, core
+    return None, False
+
+
 def run(ctx):
-    regen_facts(ctx)
-    res = ctx.coq_check(("Properties.v", "PropertiesFacts.v"))
+    stage(ctx, "fact extraction", lambda: regen_facts(ctx))
+    res = stage(ctx, "coq build", lambda: ctx.coq_check(("Properties.v", "PropertiesFacts.v")), default={}) or {}
     bad_facts = sorted(n for n, ok in res.items() if n.startswith("src_") and not ok)
     if bad_facts:
         first = None
@@ -740,11 +778,15 @@ def run(ctx):
         ctx.cov["source_fact_broken_first"] = first
         ctx.log("source-derived obligations broken (first failing: %s); all of PropertiesFacts.v counted as broken: %s\n  extracted facts:\n    %s"
                 % (first, ", ".join(bad_facts), "\n    ".join(ctx.cov.get("source_facts", []))))
-    model = ctx.extract(snippets=["conv_N.ml", "conv_Z.ml", "conv_nat.ml"])
-    exe = ctx.cxx(["harness.cpp"], "harness", repo_sources=REPO_SRC, sanitize="asan",
-                  opt=ctx.pick("-O0", "-O1"), timeout=900)
-    if not model or not exe:
+    model = stage(ctx, "model extraction", lambda: ctx.extract(snippets=["conv_N.ml", "conv_Z.ml", "conv_nat.ml"]))
+    exe, core_only = build_harness(ctx)
+    ctx.cov["stages"] = {"model": bool(model), "harness": ("core-only" if core_only else "full") if exe else None}
+    if not exe:
+        ctx.broken.append("no harness could be built against this tree: nothing was run on the real code")
         return
+    if not model:
+        ctx.broken.append("the extracted model is not available: the real code is judged by the independent python oracle alone "
+                          "(model-vs-code correspondence skipped)")
     r = ctx.rng("cases")
     tys = all_types()
     cases = []
@@ -783,16 +825,24 @@ def run(ctx):
         add("lifetime_random", [gen_L_random(r) for _ in range(ctx.pick(1500, 15000))])
     ctx.log("cases: %d %s" % (len(cases), mix))
 
+    if core_only:                                   # the core-only harness has no L / H kinds and prints skip for four fields
+        cases = [c for c in cases if c[0] not in "LH"]
     # the extracted model and the real code run side by side (two processes)
     from concurrent.futures import ThreadPoolExecutor
     with ThreadPoolExecutor(max_workers=2) as ex:
-        fm = ex.submit(vlib.differential, ctx, cases, model, [], (), 1500)
-        fi = ex.submit(run_impl_resumable, ctx, exe, cases, ctx.pick(300, 1500))
-        _, _, mlines = fm.result()
-        ilines, events = fi.result()
+        fm = ex.submit(vlib.differential, ctx, cases, model, [], (), 1500) if model else None
+        fi = ex.submit(run_impl_resumable, ctx, exe, cases, ctx.pick(240, 1500))
+        mlines = stage(ctx, "model run", lambda: fm.result()[2], default=[]) if fm else []
+        ilines, events = stage(ctx, "harness run", lambda: fi.result(), default=([], []))
     ctx.count(len(cases))
-    if len(mlines) != len(cases):
-        return
+    have_model = len(mlines) == len(cases)
+    if not have_model:
+        # no model lines: the reference is the independent oracle itself (the model-vs-oracle check below is then vacuous)
+        mlines = [oracle(c) for c in cases]
+    if core_only:
+        mlines = [re.sub(r" re=ok st=ok cp=ok mv=ok$", " re=skip st=skip cp=skip mv=skip", m) for m in mlines]
+    if len(ilines) != len(cases):
+        ilines = (ilines + ["<not run>"] * len(cases))[:len(cases)]
     mism = [(i, "DataStreaming", il, ml) for i, (il, ml) in enumerate(zip(ilines, mlines))
             if il != ml and not il.startswith("<not run") and not il.startswith("<no output")]
     ctx.cov["harness_deaths"] = len(events)
@@ -874,8 +924,11 @@ def run(ctx):
 
     # ---- model vs oracle (the model itself must satisfy the property on every case)
     nbad = 0
+    def _orc(c):
+        o = oracle(c)
+        return re.sub(r" re=ok st=ok cp=ok mv=ok$", " re=skip st=skip cp=skip mv=skip", o) if core_only else o
     for c, ml in zip(cases, mlines):
-        if ml != oracle(c):
+        if have_model and ml != _orc(c):
             nbad += 1
             if nbad <= 3:
                 ctx.broken.append("model disagrees with the property oracle on %r: model=%r oracle=%r" % (c[:200], ml[:200], oracle(c)[:200]))
@@ -898,7 +951,7 @@ def run(ctx):
 
     # ---- differences: classify with the independent oracle, one report per kind of difference
     def impl_line(line):
-        rc, out, err = ctx.run_exe(exe, [], stdin=line + "\n", timeout=120)
+        rc, out, err = ctx.run_exe(exe, [], stdin=line + "\n", timeout=30)
         return out.strip("\n") if rc == 0 else "<harness died rc=%d>" % rc
 
     seen = {}
@@ -913,25 +966,27 @@ def run(ctx):
         # smallest case of the group first
         i = min(idxs, key=lambda j: len(cases[j]))
         il, ml = byidx[i]
-        exp = oracle(cases[i])
+        exp = _orc(cases[i])
         if il != exp:
             head, units = case_units(cases[i])
 
             def fails(us, head=head):
+                if over_budget(ctx):
+                    return False                       # stop shrinking, keep what we have
                 line = (head + " " + " ".join(us)).strip()
-                return impl_line(line) != oracle(line)
+                return impl_line(line) != _orc(line)
 
             small = vlib.shrink_list(units, fails) if len(units) > 1 else units
             line = (head + " " + " ".join(small)).strip()
             obs = impl_line(line)
-            if obs == oracle(line):                 # shrinking went wrong: fall back to the original case
+            if obs == _orc(line):                   # shrinking went wrong: fall back to the original case
                 line, obs = cases[i], impl_line(cases[i])
-            if obs == oracle(line):                 # not reproducible in isolation (state carried over a crash?)
+            if obs == _orc(line):                   # not reproducible in isolation (state carried over a crash?)
                 ctx.broken.append("difference on case %r not reproducible in isolation: batch=%r single=%r" % (cases[i][:200], il[:200], obs[:200]))
                 continue
             ctx.violation("DataStreaming disagrees with the required behaviour (%s; %d cases of this kind)" % (key, len(idxs)),
-                          {"case": line, "observed": obs, "required": oracle(line),
-                           "differs_in": differing(line[0], obs, oracle(line)), "original_case": cases[i]})
+                          {"case": line, "observed": obs, "required": _orc(line),
+                           "differs_in": differing(line[0], obs, _orc(line)), "original_case": cases[i]})
         else:
             ctx.broken.append("correspondence C15 model vs code on case %r: impl=%r model=%r (impl satisfies the property oracle)"
                               % (cases[i][:200], il[:200], ml[:200]))
